@@ -112,7 +112,7 @@ for k in KINDS:
     OBLIGATIONS.append(_ob('doc_997_%s' % k, 'h_doc_mutation', 'quick', 1800, doc='997', mut=k))
     OBLIGATIONS.append(_ob('doc_999_%s' % k, 'h_doc_mutation', 'thorough', 1800, doc='999', mut=k))
     OBLIGATIONS.append(_ob('doc_834_%s' % k, 'h_doc_mutation', 'thorough', 3600, doc='834_lui_id', mut=k))
-    OBLIGATIONS.append(_ob('ctx_997_%s' % k, 'h_ctx_mutation', 'quick' if k in ('delete', 'swap', 'retag', 'orphan_trailer', 'truncate') else 'thorough', 1800, doc='997', mut=k))
+    OBLIGATIONS.append(_ob('ctx_997_%s' % k, 'h_ctx_mutation', 'quick' if k in ('delete', 'swap', 'retag', 'orphan_trailer', 'truncate', 'blank_elements') else 'thorough', 1800, doc='997', mut=k))
 for sinks in ([True, False, False], [False, True, False], [False, False, True], [False, False, False]):
     for k in ('delete', 'truncate', 'overlong'):
         OBLIGATIONS.append(_ob('doc_997_%s_sinks%s' % (k, ''.join('1' if x else '0' for x in sinks)), 'h_doc_mutation', 'thorough', 1800, doc='997', mut=k, sinks=sinks))
